@@ -115,11 +115,11 @@ CLAIMED = {
             "Model = repaired code (F-09, F-12a fixed by fix: commits after the check reported them with replays). Evaluation theorems are about the model evaluators on a given non-empty span; scripts keep the point count fixed "
             "(zip truncation in the setters is compared with the model but not judged)."),
     'C13': ("7/C13",
-            "Lean theorems (31, all discharged) over an arbitrary point type, for all sizes and degrees: the flat layout v + sv*(u + su*w) is a bijection with explicit inverse; ctrlpts2d getter/setter, the control-point "
+            "Lean theorems (37, all discharged) over an arbitrary point type, for all sizes and degrees: the flat layout v + sv*(u + su*w) is a bijection with explicit inverse; ctrlpts2d getter/setter, the control-point "
             "managers, flips, extraction of iso-curves / iso-surfaces all address flatIdx; the two flips are mutually inverse; transpose is an involution with S^T(v,u) = S(u,v); extract-then-construct is the identity "
             "for surfaces (both directions) and volumes (all three directions, repaired code); sweep boundary sections are the input and its translate; kernel-checked refutations of the pinned construct_volume('u'|'v') "
-            "and sweep_vector(curve); volume evaluation equals the curve evaluation, in the remaining direction, over the points of the surfaces extract_surfaces builds (all three families), at span level and through the span search. Tied to construct.*, sweeping.sweep_vector, operations.transpose/flip, ctrlpts2d, control_points managers by exact correspondence (27 op kinds) plus an exact oracle on the public API.",
-            "Model mirrors the repaired code (F-13a, F-13b fixed by fix: commits after the check reported them with replays). Boundary iso-curve identity, the weight split/recombine and knot-vector validation are oracle-only; "
+            "and sweep_vector(curve); volume evaluation equals the curve evaluation, in the remaining direction, over the points of the surfaces extract_surfaces builds (all three families), at span level and through the span search. Tied to construct.*, sweeping.sweep_vector, operations.transpose/flip, ctrlpts2d, control_points managers by exact correspondence (27 op kinds) plus an exact oracle on the public API. Surface evaluation through extract_curves; boundary iso-curves / iso-surfaces of clamped surfaces / volumes are the first / last extracted curve / surface (evaluated points, through the span search); sweep end sections are the input and its translate as evaluated points (non-rational evaluation on the stored points).",
+            "Model mirrors the repaired code (F-13a, F-13b fixed by fix: commits after the check reported them with replays). The projected rational form of the boundary theorems, the weight split/recombine and knot-vector validation are oracle-only; "
             "transpose leaves sample sizes unswapped (recorded observation, not checked)."),
     'C17': ("7/C17",
             "Lean theorems: binary span search = linear span search (termination included) for every degree / knots / parameter under the tolerance hypothesis that F-17b violates; span search, A2.2 and curve / surface / volume POINT evaluation are "
@@ -160,9 +160,9 @@ CLAIMED = {
             "N^T N x = N^T R exactly as the code builds them, the residual is orthogonal to every interior basis function, and they MINIMISE the summed squared distance to the interior data points over all choices of interior control points "
             "(least_squares_pythagoras / least_squares_minimises over any ordered field; approximateCurve_minimises for the model function). "
             "The model (parametrisation with chord lengths as inputs, averaged knot vectors, collocation matrix, curve and two-pass surface interpolation, least-squares curve approximation via the normal equations) "
-            "is tied to fitting.interpolate_curve / interpolate_surface / approximate_curve by exact correspondence (the sqrt doubles are recomputed by the harness and passed as exact values); the same data is also fitted twice in one process with different settings.",
+            "is tied to fitting.interpolate_curve / interpolate_surface / approximate_curve by exact correspondence (the sqrt doubles are recomputed by the harness and passed as exact values); the same data is also fitted twice in one process with different settings. approximate_surface is modelled (approximateSurface / lsqPass, op fit.asurf) and tied by exact correspondence; its corner control points and evaluated corners equal the corner data (unconditional for positive chord lengths, whenever the solver passes return); both passes solve their normal equations and minimise the squared residual of their line; the four boundary polygons are least-squares fits of the boundary data lines (oracle).",
             "Hypothesis, not proved: the collocation matrix / N^T N have non-zero Doolittle pivots (Schoenberg-Whitney; the harness checks lu_solve returns on every generated data set). The minimised sum runs over the interior data points (objective of Eq. 9.63); "
-            "the version for the EVALUATED curve (approximateCurve_least_squares, using C03's basis_function_one = Cox-de Boor) needs positive chord lengths; the interpolation knot vector is non-decreasing under invp*p*u_(n-2) <= 1 (invp is the double 1.0/p). approximate_surface is not modelled (oracle only: corner interpolation)."),
+            "the version for the EVALUATED curve (approximateCurve_least_squares, using C03's basis_function_one = Cox-de Boor) needs positive chord lengths; the interpolation knot vector is non-decreasing under invp*p*u_(n-2) <= 1 (invp is the double 1.0/p). approximate_surface: no least-squares statement for the surface as a whole (A9.7 does not have that property); approximate_curve / approximate_surface raise IndexError in matrix_multiply when a direction has only 2 control points (model guarded: ERR for nc < 3 in the surface op; generators ask for >= 3)."),
     'C14': ("7/C14",
             "Lean theorems (43) over a token-level model (numbers are abstract tokens) of the smesh, vmesh (repaired), txt 1-D/2-D and csv files and of the dict form behind JSON (trims, delta, sense flags, containers): "
             "import o export = identity up to rational form (unit weights) and normalised knot vectors for every degree, size triple, net and container length; documented row/column order; END TO END: evaluate_single (library span search + A3.1 / A3.5 / volume evaluation + weight division) of the REIMPORTED shape at the normalised parameter = the exported shape's point, rational or not, "
